@@ -13,6 +13,9 @@ use tiny_http_verif_rt::sync::mpsc::channel;
 use tiny_http_verif_rt::sync::mpsc::{Receiver, Sender};
 #[cfg(tiny_http_verif)]
 use tiny_http_verif_rt::sync::{Arc, Mutex};
+#[cfg(tiny_http_verif)]
+#[allow(unused_imports)]
+use tiny_http_verif_rt::sync::{mpsc::*, *};
 
 use std::mem;
 
